@@ -118,10 +118,9 @@ func (c *c01Worker) Run(path []SOp) (bfs.Outcome, error) {
 		return bfs.Outcome{}, err
 	}
 	out := bfs.Outcome{Obs: tr.Obs, Canon: CanonRecs(tr.Recs, c.keys...) + "|" + CanonReleased(tr.Released, c.keys...)}
+	// Only this property's invariant decides. (Whether a released signature is over exactly the requested data is
+	// C08's statement and is not alarmed here.)
 	out.Viol = attInvariant(tr.Released)
-	for _, p := range tr.SigProblems {
-		out.Viol = append(out.Viol, bfs.Viol{Key: "sig:" + p, What: p})
-	}
 	return out, nil
 }
 
